@@ -1,5 +1,5 @@
 (* PropC03.v — property C03: parameter-based retrace. *)
-From PG Require Import Base Mapping Spec Mapper CacheWriter CacheReader MapperProofs WriterInv CacheProofs.
+From PG Require Import Base Mapping Spec Mapper CacheWriter CacheReader MapperProofs Domain WriterInv CacheProofs.
 
 Theorem C03_mapper : forall rs c m p, wf_class_names rs = true ->
   m_remap_frame_params (build true rs) c m p = Sparams rs c m p.
